@@ -178,3 +178,16 @@ Definition rendered := (string * Z * Z * string * string)%type.   (* file, line,
 Definition render (p : problem) : rendered := (p_file p, p_line p, p_col p, p_cat p, p_msg p).
 Definition format_output (f : format) (ps : list problem) : list rendered :=
   match f with FNull => [] | _ => map render ps end.
+
+(* ---- lintcmd/lint.go:lint, per package result ----
+   A package that failed to load (type error: category compile; malformed staticcheck.conf: category config)
+   contributes its errors (failed(res)) whether the patterns name it or it is only in the import cone of a named
+   package; a package that loaded contributes its selected problems when it is named and nothing otherwise. *)
+Inductive pkind := PNamed | PFailedDep | PCleanDep.
+Definition load_error (cat : string) : bool := mem (lower cat) ["compile"; "config"].
+Definition lint_package (all eff : list string) (k : pkind) (ps : list problem) : list problem :=
+  match k with
+  | PNamed => filter (fun p => mem (lower (p_cat p)) ["staticcheck"; "compile"; "config"] || allowed all eff (p_cat p)) ps
+  | PFailedDep => filter (fun p => load_error (p_cat p)) ps
+  | PCleanDep => []
+  end.
